@@ -119,7 +119,7 @@ fn judge_impl(case: &Case, strict: bool) -> Outcome {
         }
     }
     if k3 {
-        labels.push("k3_shaped_list_agreeing");
+        labels.push("mixed_batch_list_agreeing");
     }
     let nontrivial = (k >= 2 || (k == 1 && n != 1 && quant == "of")) && partial | (saw_true && saw_nontrue);
     Outcome::Pass {
